@@ -9,6 +9,7 @@ def dispatchWrapF (line : String) : String :=
   | "generics" :: args => handleGenerics args
   | "dclones" :: args => handleDclones args
   | "sem" :: args => handleSem args
+  | "gtargets" :: args => handleGtargets args
   | _ => "bad-op"
 
 partial def loopWrapF (h : IO.FS.Stream) (out : IO.FS.Stream) : IO Unit := do
